@@ -1,5 +1,5 @@
 //@unit shwap
-//@serves C04 C05 C06 C16
+//@serves C04 C05 C06 C16 C10
 //@src types/src/sample.rs
 use vstd::prelude::*;
 verus! {
@@ -138,7 +138,7 @@ pub open spec fn sample_ok(s: Sample, id: SampleId, dah: DataAvailabilityHeader)
 
 impl Sample {
 //@fn impl Sample :: verify
-//@props C04 C16
+//@props C04 C16 C10
 //@macro bail_verification => return Err(Error::Verification(VerificationError::Other))
     pub fn verify(&self, id: SampleId, dah: &DataAvailabilityHeader) -> (res: Result<()>)
         ensures res.is_ok() <==> sample_ok(*self, id, *dah)
@@ -175,7 +175,7 @@ impl Share {
 }
 impl Sample {
 //@fn impl Sample :: from_raw
-//@props C04 C16
+//@props C04 C16 C10
 //@macro bail_validation => return Err(Error::Validation(ValidationError::Other))
     pub fn from_raw(id: SampleId, sample: RawSample) -> (res: Result<Self>)
         ensures
@@ -229,7 +229,7 @@ pub open spec fn row_leaves(shares: Seq<Share>) -> Seq<(Seq<u8>, NamespaceId)> {
 }
 impl Row {
 //@fn impl Row :: verify @ types/src/row.rs
-//@props C05 C16
+//@props C05 C16 C10
     pub fn verify(&self, id: RowId, dah: &DataAvailabilityHeader) -> (res: Result<()>)
         ensures
             // accepted only if the NMT over ALL shares of the row, in order, has the digest of the DAH's root for row `id.index`
@@ -317,7 +317,7 @@ pub open spec fn row_ns_ok(d: RowNamespaceData, ns: Namespace, row: u16, dah: Da
 }
 impl RowNamespaceData {
 //@fn impl RowNamespaceData :: verify @ types/src/row_namespace_data.rs
-//@props C06 C16
+//@props C06 C16 C10
     pub fn verify(&self, id: RowNamespaceDataId, dah: &DataAvailabilityHeader) -> (res: Result<()>)
         ensures res.is_ok() <==> row_ns_ok(*self, id.namespace, id.row, *dah)
 //@sub E9 "dah.row_root(row).ok_or(Error::EdsIndexOutOfRange(row, 0))?" => "(match dah.row_root(row) { Some(r) => r, None => return Err(Error::EdsIndexOutOfRange(row, 0)) })"
